@@ -119,3 +119,22 @@ template <class T> class StringTableT { Tab _table; public:
     void forget_bad(const T &) { _table.erase(0); } };
 inline int use_table() { StringTableT<int> t; t.forget_bad(1); return t.intern(2); }
 }
+
+// ---------------------------------------------------------------- C20 examples
+extern "C" void PyErr_SetString(void *, const char *);
+namespace PyImath {
+struct GoodTask : Task { FixedArray<int> &r; const FixedArray<int> &a; GoodTask(FixedArray<int> &r_, const FixedArray<int> &a_) : r(r_), a(a_) {}
+    void execute(size_t start, size_t end) override { for (size_t i = start; i < end; ++i) r.ref_good(i) = a.get(i); } };
+struct IgnoresStartTask : Task { FixedArray<int> &r; IgnoresStartTask(FixedArray<int> &r_) : r(r_) {}
+    void execute(size_t start, size_t end) override { for (size_t i = 0; i < end; ++i) r.ref_good(i) = 1; } };
+struct Arr2 { int *p; int &operator[](size_t i) { return p[i]; } const int &operator[](size_t i) const { return p[i]; } };
+struct NeighbourTask : Task { Arr2 r; int total; NeighbourTask() : total(0) {}
+    void execute(size_t start, size_t end) override { for (size_t i = start; i < end; ++i) { r[i + 1] = r[i]; total = total + 1; } } };
+struct DisjointTask : Task { Arr2 r; Arr2 a;
+    void execute(size_t start, size_t end) override { for (size_t i = start; i < end; ++i) r[i] = a[i]; } };
+struct PythonTask : Task { Arr2 r;
+    void execute(size_t start, size_t end) override { for (size_t i = start; i < end; ++i) { r[i] = 0; } PyErr_SetString(nullptr, "x"); } };
+inline void run_good(FixedArray<int> &r, const FixedArray<int> &a) { size_t len = r.match_dimension(a); GoodTask t(r, a); dispatchTask(t, len); }
+inline void run_bad(FixedArray<int> &r, const FixedArray<int> &a) { size_t len = r.len(); GoodTask t(r, a); dispatchTask(t, len); }
+inline void run_others(FixedArray<int> &r) { IgnoresStartTask t(r); dispatchTask(t, r.len()); NeighbourTask n; DisjointTask d; PythonTask p; n.execute(0, 1); d.execute(0, 1); p.execute(0, 1); }
+}
